@@ -231,10 +231,14 @@ def Prov.get : Prov → String → Val
     -- urlDataProvider.Get: a missing key reads as "", a missing list key (`k[]`) as nil
     (lookupD kvs k).getD (if k.length > 2 && k.endsWith "[]" then .nil else .str "")
 
-/-- `GetKeyFromField`: source tag, else `zog` tag, else the schema key -/
+/-- the name part of a source tag: what precedes the first comma (`json:"name,omitempty"`) -/
+def tagName (v : String) : String := String.ofList (v.toList.takeWhile (fun c => c != ','))
+
+/-- `GetKeyFromField`: the name in the source tag (if the tag is there and names something), else the
+    `zog` tag, else the schema key -/
 def keyFor (tag : Option String) (fm : FieldMeta) (schemaKey : String) : String :=
-  match tag.bind (fun t => lookupD fm.tags t) with
-  | some k => k
+  match (tag.bind (fun t => lookupD fm.tags t)).map tagName with
+  | some k => if k != "" then k else (lookupD fm.tags "zog").getD schemaKey
   | none => (lookupD fm.tags "zog").getD schemaKey
 
 /-- `GetByField`'s key: the empty provider (nil input, empty map, `{}`) has no source tag of its
